@@ -47,6 +47,7 @@ namespace pika::detail {
         {
             cond_.wait(l, "sliding_semaphore::wait");
         }
+        PIKA_VERIF_POST("ssem.pass", this, upper_limit, lower_limit_);
     }
 
     bool sliding_semaphore::try_wait(std::unique_lock<mutex_type>& l, std::int64_t upper_limit)
@@ -69,6 +70,7 @@ namespace pika::detail {
         mutex_type* mtx = l.mutex();
 
         lower_limit_ = (std::max)(lower_limit, lower_limit_);
+        PIKA_VERIF_POST("ssem.signal", this, lower_limit_, cond_.size(l));
 
         // touch upon all threads
         std::int64_t count = static_cast<std::int64_t>(cond_.size(l));
